@@ -4,10 +4,10 @@ import PhyModel.Proofs.StoreCache_Map
 clone (or at the top level) and its clashing names are replaced; only the equations on the path from
 the graft point to the top can break, and that path is recomputed.
 
-The statement takes the part `WFc` of C07's well-formedness of the *resulting* store as a hypothesis
-(graph indices unique, the new name → index map sends a clone's name to its index): C07 proves it
-for every store along a history, and it is exactly what tells that `_update_path_to_root` starts at
-the graft point. -/
+Here: the `append` / `graftAt` lemmas and a first form of the theorem that takes the part `WFc` of
+C07's well-formedness of the *resulting* store as a hypothesis (it tells that `_update_path_to_root`
+starts at the graft point).  `StoreCache_addSubIn.lean` proves the form used by `cacheOK_step`, from
+`WFc` of the edited store only. -/
 namespace PhyModel.Store
 open PhyModel
 
@@ -153,7 +153,7 @@ theorem renameBy_p (ren : List (Nat × Int)) (n : NodeRec) : (renameBy ren n).p 
 theorem renameBy_r (ren : List (Nat × Int)) (n : NodeRec) : (renameBy ren n).r = n.r := by
   unfold renameBy; split <;> rfl
 
-/-- **C06, `add_subtree`** -/
+/-- `add_subtree`, given `WFc` of the result (superseded by `cacheOK_addSub_in`) -/
 theorem cacheOK_addSub (dt : Data) (s sub s' : Store) (parent : Option Int) (hc : CacheOK dt s)
     (hcs : CacheOK dt sub) (hw' : WFc s') (h : s.addSubtree dt sub parent = some s') :
     CacheOK dt s' := by
